@@ -5,5 +5,7 @@ CONSTANTS
   MaxE = 3
   MaxS = 1
   MaxX = 0
-  MaxStack = 3
+  MaxP = 0
+  MaxL = 0
+  MaxTop = 1
 CHECK_DEADLOCK FALSE
